@@ -432,7 +432,7 @@ fn nest(open: &str, core: &str, close: &str, d: usize) -> String {
     s
 }
 
-pub const N_STRESS: u64 = 120;
+pub const N_STRESS: u64 = 124;
 
 /// fixed stress inputs; `k` in 0..N_STRESS. Shapes are phrased in the grammar of the family.
 pub fn stress_text(w: &RWorld, fam: Fam, k: u64) -> (String, &'static str) {
@@ -461,6 +461,17 @@ pub fn stress_text(w: &RWorld, fam: Fam, k: u64) -> (String, &'static str) {
         Fam::Conc | Fam::Sem => "and(",
         _ => "and_v(v:",
     };
+    if fam == Fam::Key {
+        // key parsers: base58 / path shapes instead of wrapper shapes (sizes chosen far from
+        // the time limit on either side: base58 decoding is quadratic in rust-bitcoin)
+        match k {
+            1 => return (format!("xpub{}", "1".repeat(400_000)), "base58-4e5"),
+            4 => return (format!("xprv{}", "1".repeat(400_000)), "base58-4e5"),
+            5 => return (format!("K{}", "x".repeat(400_000)), "base58-4e5"),
+            6 => return (format!("[{}/0]xpub{}", w.fp[0], "1".repeat(20_000)), "base58-2e4"),
+            _ => {}
+        }
+    }
     match k {
         0 => (outer(format!("{}:{}", "a".repeat(10_000), leaf)), "wrap-1e4"),
         1 => (outer(format!("{}:{}", "a".repeat(100_000), leaf)), "wrap-1e5"),
@@ -562,7 +573,7 @@ pub fn stress_text(w: &RWorld, fam: Fam, k: u64) -> (String, &'static str) {
         91 => (format!("{}{}", outer(leaf.clone()), "#".repeat(100_000)), "hashes-1e5"),
         92 => (outer(format!("pk({}{})", w.xpub[0], "/0".repeat(100_000))), "path-1e5"),
         93 => (outer(format!("pk([{}{}]{})", w.fp[0], "/0'".repeat(100_000), w.xpub[0])), "origin-path-1e5"),
-        94 => (outer(format!("pk({}/<{}1>/*)", w.xpub[0], "0;".repeat(50_000))), "multipath-5e4"),
+        94 => (outer(format!("pk({}/<{}1>/*)", w.xpub[0], "0;".repeat(1_000))), "multipath-1e3"),
         95 => (outer(format!("pk({}/<0;1>/*)", w.xpub[0])), "multipath-valid"),
         96 => (outer(format!("multi(2,{}/<0;1>/*,{}/<0;1;2>/*)", w.xpub[0], w.xpub[1])), "multipath-unequal"),
         97 => (outer(format!("or(0@{},1@{})", leaf, leaf)), "odds-0"),
@@ -590,7 +601,19 @@ pub fn stress_text(w: &RWorld, fam: Fam, k: u64) -> (String, &'static str) {
         116 => (outer(format!("and_v({}:1,1)", "v".repeat(3_000))), "wrap-v-3000"),
         117 => (outer(nest("andor(0,1,", "1", ")", 401)), "depth-401-andor"),
         118 => (outer(format!("sortedmulti(1,{})", vec![key.clone(); 21].join(","))), "sortedmulti-21"),
-        _ => (outer(format!("multi_a(1,{})", vec![key.clone(); 1000].join(","))), "multi_a-1000"),
+        119 => (outer(format!("multi_a(1,{})", vec![key.clone(); 1000].join(","))), "multi_a-1000"),
+        120 => (outer(format!("pk(xpub{})", "1".repeat(400_000))), "base58-4e5"),
+        121 => (outer(format!("pk({}/<{}1>/*)", w.xpub[0], "0;".repeat(20_000))), "multipath-2e4"),
+        122 => {
+            // reported by the C07 builder: 521-byte redeem script accepted (uncompressed keys counted as 65 bytes)
+            let u = format!("{}", w.w.pks[6]);
+            let u2 = format!("{}", w.w.pks[7]);
+            (
+                format!("sh(and_v(v:multi(1,{u},{u2},{u},{u2},{u},{u2},{u}),and_v(v:pkh({}),and_v(v:older(65535),pkh({})))))", w.hexkey(0, false), w.hexkey(1, false)),
+                "sh-redeem-521-bytes",
+            )
+        }
+        _ => (outer(format!("pk({}{})", w.xpub[0], "/0".repeat(256))), "path-256-steps"),
     }
 }
 
@@ -868,6 +891,16 @@ fn run_desc_def(w: &RWorld, i: &Input) -> Obs {
     if let Ok(d) = &r2 {
         post_desc(d);
         let _ = d.script_pubkey();
+        if let Err(e) = d.address(bitcoin::Network::Bitcoin) {
+            let _ = err_class(&e);
+        }
+        let ds = bin::DummySat { w, keys: !0, pre: !0, lt: 0xffff_ffff, seq: 0xffff, big: vec![] };
+        if let Err(e) = d.get_satisfaction(&ds) {
+            let _ = err_class(&e);
+        }
+        if let Err(e) = d.get_satisfaction_mall(&ds) {
+            let _ = err_class(&e);
+        }
     }
     match Descriptor::<DefiniteDescriptorKey>::from_str(s) {
         Err(e) => {
